@@ -224,13 +224,21 @@ func (c *localCache) ReadCh(ctx context.Context, name string, opts *Opts, paths 
 		opts = &Opts{}
 	}
 	outCh := make(chan *Update, len(paths))
+	// The intended store answers a read for one given priority by looking up path+priority+owner, which only
+	// yields entries whose path equals a requested path. To also serve what is stored below a requested path,
+	// all priorities are read and the requested priority and owner are picked from the result.
+	readPriority, readOwner := opts.Priority, opts.Owner
+	pickPriority := opts.Store == cachepb.Store_INTENDED && opts.Priority > 0
+	if pickPriority {
+		readPriority, readOwner = -1, ""
+	}
 	go func() {
 		defer close(outCh)
 		ch, err := c.c.ReadValue(ctx, name, &cache.Opts{
 			Store:         getStore(opts.Store),
 			Path:          paths,
-			Owner:         opts.Owner,
-			Priority:      opts.Priority,
+			Owner:         readOwner,
+			Priority:      readPriority,
 			PriorityCount: opts.PriorityCount,
 			KeysOnly:      opts.KeysOnly,
 		})
@@ -253,6 +261,9 @@ func (c *localCache) ReadCh(ctx context.Context, name string, opts *Opts, paths 
 				// so reading "interface,eth1" also yields "interface,eth10" or a sibling "interface,eth1x".
 				// Only forward entries that are at or below one of the requested paths.
 				if (opts.Store == cachepb.Store_CONFIG || opts.Store == cachepb.Store_STATE) && !isBelowAnyPath(e.P, paths) {
+					continue
+				}
+				if pickPriority && (e.Priority != opts.Priority || (opts.Owner != "" && e.Owner != opts.Owner) || !isBelowAnyPath(e.P, paths)) {
 					continue
 				}
 				// do not block forever if the consumer stopped reading
